@@ -45,6 +45,7 @@ TraceNext ==
           \/ TOp("S", Success, "G_C20_SuccessSetsTrueIff")
           \/ TOp("F", Failure, "G_C20_FailureSetsFalseIff")
           \/ TOp("Reset", Reset, "G_C20_ResetUnknown")
+          \/ TOp("ResetNC", ResetNC, "G_C20_ResetUnknown")
           \/ TOp("Restart", Restart, "G_C20_RestartKeepsCond")
           \/ TOp("HydrateT", Hydrate /\ cond = "True", "G_C20_HydrateKeepsCond")
           \/ TOp("HydrateF", Hydrate /\ cond = "False", "G_C20_HydrateKeepsCond")
